@@ -37,6 +37,9 @@ type cmdRun struct {
 	World   *vwire.World
 	Seed    int64
 	Timeout time.Duration // hard limit for Execute() to return (default 60s)
+	// a consumer of stdout that is slow for a while: during SlowFor after the first byte, reads take 256 bytes each and pause SlowPause
+	SlowFor   time.Duration
+	SlowPause time.Duration
 }
 
 type cmdResult struct {
@@ -60,13 +63,26 @@ type pipeCapture struct {
 	done chan struct{}
 }
 
-func capture(r *os.File) *pipeCapture {
+func capture(r *os.File) *pipeCapture { return captureSlow(r, 0, 0) }
+
+func captureSlow(r *os.File, slowFor, pause time.Duration) *pipeCapture {
 	c := &pipeCapture{done: make(chan struct{})}
 	go func() {
 		defer close(c.done)
 		b := make([]byte, 64*1024)
+		var first time.Time
 		for {
-			n, err := r.Read(b)
+			buf := b
+			if slowFor > 0 && (first.IsZero() || time.Since(first) < slowFor) {
+				buf = b[:256]
+				if !first.IsZero() {
+					time.Sleep(pause)
+				}
+			}
+			n, err := r.Read(buf)
+			if n > 0 && first.IsZero() {
+				first = time.Now()
+			}
 			if n > 0 {
 				c.mu.Lock()
 				c.buf.Write(b[:n])
@@ -109,7 +125,7 @@ func runCmd(r cmdRun) *cmdResult {
 		}
 		inW.Close()
 	}()
-	outC, errC := capture(outR), capture(errR)
+	outC, errC := captureSlow(outR, r.SlowFor, r.SlowPause), capture(errR)
 	if r.World == nil {
 		r.World = vwire.NewWorld(vwire.Scenario{})
 	}
